@@ -1,8 +1,3 @@
-import Driver.Util
-/-! Driver stub for C03: not built yet. -/
-namespace Driver.C03
-abbrev State := Unit
-def init : State := ()
-def step (st : State) (_toks : List String) : Option (State × String) := some (st, "bad-op")
-end Driver.C03
-def main : IO Unit := Driver.runLoop Driver.C03.init Driver.C03.step
+import Driver.ClusterOps
+/-! Driver for C03: the cluster op family on the node model. -/
+def main : IO Unit := Driver.runLoop ({} : Driver.ClusterOps.CState) Driver.ClusterOps.step
